@@ -25,6 +25,8 @@ def optimize_ttns(ttns: TTNS, ttno: TTNO, procedure=None):
         micro_e = optimize_recursion(ttns.root, ttns, ttno, ttne, m, percent)
         logger.info(f"Micro e: {micro_e}")
         e_list.append(micro_e[-1])
+    # a truncating sweep leaves the norm slightly below one (`optimize_mps` normalizes its result too)
+    ttns.normalize("ttns_only")
     return e_list
 
 
